@@ -24,7 +24,7 @@ PLAN = {
     "thorough": {"shards": 16, "shard_timeout": 3600, "case_timeout": 60, "runs": 1200000, "max_case_timeouts": 10},
 }
 THRESHOLDS = {
-    "quick": {"runs_checked": 600, "budget_checks": 5000, "alg:gp": 100, "alg:rs": 100, "alg:hc": 100, "alg:opo": 100, "kind:evaluation": 200, "kind:target": 100, "kind:anyof": 150, "target_reached_runs": 60, "zero_creation_runs": 10, "selection_after_variation_runs": 40, "frontend_runs": 40, "frontend_multi_objective_runs": 8, "multi_target_runs": 40, "multi_target:rs": 8, "multi_target:hc": 8, "multi_target:opo": 8, "multi_target_reached_runs": 8, "frontend_repr:ge": 3, "frontend_repr:dsge": 3, "frontend_repr:stack": 3, "gp_runs_with_membership_model": 100, "frontend_runs_with_target_zero": 10, "frontend_target_reached_runs": 15},
+    "quick": {"searches_whose_tracker_was_built_before_an_earlier_search_ran": 100, "searches_on_an_evaluator_that_served_an_earlier_search": 100, "frontend_second_objective:never": 2, "frontend_second_objective:later": 2, "runs_checked": 600, "budget_checks": 5000, "alg:gp": 100, "alg:rs": 100, "alg:hc": 100, "alg:opo": 100, "kind:evaluation": 200, "kind:target": 100, "kind:anyof": 150, "target_reached_runs": 60, "zero_creation_runs": 10, "selection_after_variation_runs": 40, "frontend_runs": 40, "frontend_multi_objective_runs": 8, "multi_target_runs": 40, "multi_target:rs": 8, "multi_target:hc": 8, "multi_target:opo": 8, "multi_target_reached_runs": 8, "frontend_repr:ge": 3, "frontend_repr:dsge": 3, "frontend_repr:stack": 3, "gp_runs_with_membership_model": 100, "frontend_runs_with_target_zero": 10, "frontend_target_reached_runs": 15},
     "thorough": {"runs_checked": 15000, "budget_checks": 120000, "zero_creation_runs": 300},
 }
 
